@@ -319,6 +319,12 @@ func (cl *c12Client) LookupServerKeys(_ context.Context, s spec.ServerName, _ ma
 
 // ---- check ----
 
+func c12KTag(ctx *vfCtx, prefix, tag string) {
+	for _, s := range c12TagClasses(prefix, tag) {
+		ctx.Class(s)
+	}
+}
+
 func c12KCheck(ctx *vfCtx, c c12KCase) {
 	ctx.Class("mode/" + c.Mode)
 	switch c.Mode {
@@ -335,7 +341,7 @@ func c12KCheckKeys(ctx *vfCtx, c c12KCase) {
 	if c.Resp == nil {
 		return
 	}
-	ctx.Class(c.Resp.Tag)
+	c12KTag(ctx, "", c.Resp.Tag)
 	raw := c12BuildResp(*c.Resp, 0)
 	var keys ServerKeys
 	if err := json.Unmarshal(raw, &keys); err != nil {
@@ -484,6 +490,20 @@ func c12Judge(r c12KeyResp, nowLo, nowHi int64) c12Verdict {
 
 func (v c12Verdict) acceptable() bool { return v.nameOK && v.signedAll && v.future && !v.odd && !v.bare }
 
+func c12Severity(sig string) int {
+	switch {
+	case strings.HasSuffix(sig, "/accepted-past-valid-until"):
+		return 0
+	case strings.HasSuffix(sig, "/accepted-partially-signed-response"):
+		return 1
+	case strings.HasSuffix(sig, "/accepted-without-notary-signature"):
+		return 2
+	case strings.HasSuffix(sig, "/accepted-unsigned-response"):
+		return 3
+	}
+	return 4
+}
+
 // c12Sound judges one result entry of a fetcher against the responses served in the call.
 func c12Sound(ctx *vfCtx, kind string, cl *c12Client, pk c12PK, v c12PR, nowLo, nowHi int64, extra func(c12KeyResp) string) {
 	from := c12Traced(cl.served, pk, v)
@@ -494,6 +514,7 @@ func c12Sound(ctx *vfCtx, kind string, cl *c12Client, pk c12PK, v c12PR, nowLo, 
 	}
 	// the entry is justified if at least one of the responses it can come from is acceptable
 	worst := ""
+	var culprit c12KeyResp
 	for _, r := range from {
 		jd := c12Judge(r, nowLo, nowHi)
 		why := ""
@@ -521,11 +542,13 @@ func c12Sound(ctx *vfCtx, kind string, cl *c12Client, pk c12PK, v c12PR, nowLo, 
 		if why == "" {
 			return // justified
 		}
-		if worst == "" || (why != "C12/fetcher/accepted-past-valid-until" && worst == "C12/fetcher/accepted-past-valid-until") {
-			worst = why
+		// several served responses can contain the same entry (old keys carry no valid_until_ts):
+		// report the mildest reason, i.e. the response the fetcher most plausibly accepted
+		if worst == "" || c12Severity(why) < c12Severity(worst) {
+			worst, culprit = why, r
 		}
 	}
-	r := from[0]
+	r := culprit
 	ctx.Fail(worst, "%s fetcher returned %s/%s from a response that must not be accepted (server_name %q, queried %q, valid_until_ts %d, now %d): %s",
 		kind, pk.ServerName, pk.KeyID, r.name, r.queried, r.vu, nowHi-c12Slack, r.raw)
 }
@@ -536,10 +559,10 @@ func c12KDirect(ctx *vfCtx, c c12KCase) {
 	for _, d := range c.Direct {
 		cl.direct[d.Server] = d
 		if d.Resp != nil {
-			ctx.Class("direct/" + d.Resp.Tag)
+			c12KTag(ctx, "direct/", d.Resp.Tag)
 		}
 		for _, n := range d.Notary {
-			ctx.Class("notary/" + n.Tag)
+			c12KTag(ctx, "notary/", n.Tag)
 		}
 	}
 	f := &DirectKeyFetcher{Client: cl, IsLocalServerName: func(spec.ServerName) bool { return false }}
@@ -598,19 +621,22 @@ func c12KDirect(ctx *vfCtx, c c12KCase) {
 				continue
 			}
 			jd := c12Judge(*first, nowLo, nowHi)
-			if jd.acceptable() {
+			switch {
+			case jd.acceptable():
 				ctx.Class("direct/complete/direct-response-acceptable")
 				c12ExpectMapped(ctx, "C12/fetcher/direct/good-response-dropped", *first, results, nil)
 				continue
-			}
-			if jd.odd || jd.bare || (!jd.past && !jd.future) {
-				ctx.Unjudged("direct response neither clearly acceptable nor clearly unacceptable")
+			case jd.bare:
+				ctx.Unjudged("verify key ID without ':'")
 				continue
-			}
-			if jd.nameOK && jd.signedAll && jd.past {
+			case jd.nameOK && jd.signedAll && jd.past:
 				// known class: the tree accepts it (see known.d/C12.txt) and then never asks the notary
 				ctx.Class("direct/past-valid-until(fallback unjudged)")
 				ctx.Unjudged("direct response with valid_until_ts in the past: whether the notary fallback must be used is not judged")
+				continue
+			case jd.nameOK && jd.signedAll:
+				// odd signatures member or valid_until_ts within clock slack
+				ctx.Unjudged("direct response neither clearly acceptable nor clearly unacceptable")
 				continue
 			}
 		}
@@ -649,7 +675,7 @@ func c12KPerspective(ctx *vfCtx, c c12KCase) {
 		pkeys[KeyID(k.KeyID)] = ed25519.PublicKey(append([]byte(nil), k.Key...))
 	}
 	for _, r := range c.PerspectiveResp {
-		ctx.Class("perspective/" + r.Tag)
+		c12KTag(ctx, "perspective/", r.Tag)
 	}
 	f := &PerspectiveKeyFetcher{PerspectiveServerName: spec.ServerName(c.Perspective), PerspectiveServerKeys: pkeys, Client: cl}
 	reqs := map[c12PK]spec.Timestamp{}
@@ -756,6 +782,28 @@ var c12KServers = []string{"a.example", "b.example:8448", "notary.example"}
 func c12GenResp(t *rapid.T, asked string, base int, relTime bool, notary string, notaryPool int, label string) c12RespSpec {
 	r := c12RespSpec{Name: asked}
 	var tags []string
+	if rapid.IntRange(0, 9).Draw(t, label+"_clean") < 4 {
+		// a fully acceptable response: one or two signed keys, maybe an old key
+		r.ValidUntil = c12Abs(1700000000000)
+		if relTime {
+			r.ValidUntil = c12Rel(rapid.SampledFrom([]int64{c12Minute, c12Hour, 30 * c12Day}).Draw(t, label+"_vu"))
+		}
+		nk := rapid.IntRange(1, 2).Draw(t, label+"_nverify")
+		for i := 0; i < nk; i++ {
+			id := []string{"ed25519:a", "ed25519:b"}[i]
+			r.Verify = append(r.Verify, c12VK{KeyID: id, Key: c12Pub(base + i)})
+			r.Sigs = append(r.Sigs, c12SigSpec{Signer: asked, KeyID: id, Pool: base + i})
+		}
+		if rapid.Bool().Draw(t, label+"_old") {
+			r.Old = append(r.Old, c12OK{KeyID: "ed25519:old1", Key: c12Pub(base + 2), Expired: c12Abs(1600000000000)})
+		}
+		if notary != "" {
+			r.Sigs = append(r.Sigs, c12SigSpec{Signer: notary, KeyID: "ed25519:n", Pool: notaryPool})
+		}
+		r.Spaced = rapid.Bool().Draw(t, label+"_spaced")
+		r.Tag = "resp/good"
+		return r
+	}
 	if rapid.IntRange(0, 9).Draw(t, label+"_wrongName") == 0 {
 		r.Name = rapid.SampledFrom([]string{"evil.example", "a.example", "b.example:8448", ""}).Draw(t, label+"_name")
 		if r.Name != asked {
@@ -899,7 +947,7 @@ func c12KGen(t *rapid.T) c12KCase {
 			c.PerspectiveKeys = append(c.PerspectiveKeys, c12VK{KeyID: "ed25519:n2", Key: c12Pub(7)})
 		}
 		c.PerspectiveErr = rapid.IntRange(0, 9).Draw(t, "perr") == 0
-		nr := rapid.IntRange(0, 3).Draw(t, "nresp")
+		nr := rapid.SampledFrom([]int{0, 1, 1, 1, 2, 2, 3}).Draw(t, "nresp")
 		for i := 0; i < nr; i++ {
 			si := rapid.IntRange(0, 1).Draw(t, "respServer")
 			c.PerspectiveResp = append(c.PerspectiveResp, c12GenResp(t, c12KServers[si], 3*si, true, c.Perspective, 8, "p"))
